@@ -1,9 +1,12 @@
 (* MutexDefs.v — interleaving model of cocls::mutex (mutex.h as repaired by 2b1c999, awaiter.h co_awaiter /
    sync_awaiter, the thread-local coro_queue of coro_queue.h / suspend_point.h as far as the mutex uses it).
    Memory-faithful: `requests` and `queue` are pointers (null | doorman | awaiter of task w), the `_next`
-   links are a map; build_queue walks the links.  One model step = the code between two yield points
-   (COCLS_VERIF_POINT m_try/m_sub/m_pub/m_unlock/m_bq in the library, "cs"/"step" in the scenario, the
-   BLOCK before flag.wait).  Logical contenders ("tasks") are coroutines or plain threads; a coroutine is
+   links are a map; build_queue walks the links.  One model step = one atomic operation on mutex::_requests
+   (the harness intercepts std::atomic<awaiter*>: every load / exchange / compare_exchange is a scheduling
+   point of its own, whether or not the library marks it) plus the thread-private code that follows it, or
+   the code after a remaining marked point ("m_pub" after the publishing CAS, "cs"/"step" in the scenario,
+   the BLOCK before flag.wait).  Point codes: 27 load, 28 exchange, 29 compare_exchange, 22 m_pub, 8 flagwait,
+   25 cs, 30 step.  Logical contenders ("tasks") are coroutines or plain threads; a coroutine is
    resumed on the OS thread of whoever releases the mutex, so OS threads carry a ready queue (coro_queue)
    and the task they currently execute.  Model only, no proofs. *)
 From Cocls Require Import Base.
@@ -16,16 +19,18 @@ Inductive rel := RDrop | RExpl | RAwait.
 
 Inductive pc :=
 | PStep      (* scenario point "step" (30): round boundary / start / end *)
-| PTry       (* "m_try" (20): mutex::ready(), CAS null -> doorman                      mutex.h:181-188 *)
-| PSub       (* "m_sub" (21): mutex::subscribe(), publishing CAS loop                  mutex.h:196-200 *)
+| PTry       (* cas (29): mutex::ready(), CAS null -> doorman                          mutex.h:181-188 *)
+| PSub (e : ptr) (* cas (29): mutex::subscribe(), one attempt of the publishing CAS with expected value e
+                    (= the local `prev`; aw->_next = e was written before the attempt)    mutex.h:197-200 *)
 | PPub0      (* "m_pub" (22): published, previous top was null -> owns the mutex        mutex.h:203 *)
 | PPubW      (* "m_pub" (22): blocking thread published behind an owner                 mutex.h:212 *)
-| PBqS       (* "m_bq" (24): build_queue(aw) called from subscribe                      mutex.h:209,222 *)
+| PBqS       (* xchg (28): build_queue(aw) called from subscribe                        mutex.h:209,222 *)
 | PParked    (* coroutine suspended, request published (its thread may still be in await_suspend) *)
 | PFlag      (* "flagwait" (8): blocking thread waits for sync_awaiter::flag            awaiter.h:322 *)
 | PCs        (* "cs" (25): owns the mutex; at (or queued for) the point inside the critical section *)
-| PUnlock    (* "m_unlock" (23): mutex::unlock()                                        mutex.h:153 *)
-| PBqU       (* "m_bq" (24): build_queue(doorman) called from unlock                    mutex.h:165,222 *)
+| PUnlock    (* load (27): mutex::unlock(): assert(_requests.load() != nullptr), queue test   mutex.h:151-154 *)
+| PUnlockCas (* cas (29): unlock(): CAS doorman -> null                                  mutex.h:157 *)
+| PBqU       (* xchg (28): build_queue(doorman) called from unlock                      mutex.h:165,222 *)
 | PDone.
 
 Record task := mkT {
@@ -54,7 +59,8 @@ Record st := mkSt {
   thrs : list thr;
   err : bool;                (* null dereference in unlock (first = nullptr) *)
   ovl : bool;                (* scenario: overlap detector fired *)
-  elog : list nat;           (* scenario: order of critical-section entries *)
+  elog : list (nat * nat);   (* scenario event log: (6, w) w entered the critical section, (4, w) w left it,
+                                (5, w) w's request was published (a successful CAS stored an awaiter) *)
   (* ghost history / abstraction, not read by any step *)
   owner : option nat;
   gstack : list nat;         (* requests published behind the owner and not yet detached, newest first *)
@@ -98,7 +104,7 @@ Definition s_mem (s : st) (r q : ptr) (n : list ptr) (d : ptr) : st :=
 Definition s_err (s : st) : st :=
   mkSt (requests s) (queue s) (next s) (dnext s) (tasks s) (thrs s) true (ovl s) (elog s)
        (owner s) (gstack s) (gqueue s) (alog s) (glog s).
-Definition s_scn (s : st) (o : bool) (e : list nat) : st :=
+Definition s_scn (s : st) (o : bool) (e : list (nat * nat)) : st :=
   mkSt (requests s) (queue s) (next s) (dnext s) (tasks s) (thrs s) (err s) o e
        (owner s) (gstack s) (gqueue s) (alog s) (glog s).
 Definition s_ghost (s : st) (o : option nat) (gs gq al gl : list nat) : st :=
@@ -114,7 +120,9 @@ Definition set_tq (s : st) (t : nat) (q : list nat) : st :=
 (* ---- scenario: critical-section entry of task w (it starts to run with the mutex) ---- *)
 Definition enter (s : st) (w : nat) : st :=
   let o := existsb incs (tasks s) in
-  set_task (s_scn s (ovl s || o) (elog s ++ [w])) w (t_enter (gtask s w)).
+  set_task (s_scn s (ovl s || o) (elog s ++ [(6%nat, w)])) w (t_enter (gtask s w)).
+
+Definition s_ev (s : st) (k w : nat) : st := s_scn s (ovl s) (elog s ++ [(k, w)]).
 
 (* ---- coro_queue: the running coroutine of thread t suspended or finished: flush_queue picks the next
    handle (coro_queue.h:61-67); with an empty queue the queue is uninstalled and the code that installed
@@ -213,45 +221,55 @@ Definition tstep (s : st) (t : nat) : st * Z * nat :=
           | PNull =>
               let s1 := s_mem s PDoor (queue s) (next s) (dnext s) in
               let s2 := s_ghost s1 (Some c) (gstack s1) (gqueue s1) (alog s1) (glog s1) in
-              (enter (set_pc s2 c PCs) c, 20, c)
+              (enter (set_pc s2 c PCs) c, 29, c)
           | _ =>
               match cacq x with
-              | ATry => (set_task s c (t_endround x true), 20, c)
-              | ALock => (set_pc s c PSub, 20, c)
+              | ATry => (set_task s c (t_endround x true), 29, c)
+              | ALock =>   (* subscribe(): prev = nullptr; aw->_next = prev; first attempt pending   mutex.h:197-199 *)
+                  (set_pc (s_mem s (requests s) (queue s) (set_nth (next s) c PNull) (dnext s)) c (PSub PNull), 29, c)
               end
           end
-      | PSub =>
-          let prev := requests s in
-          let s1 := s_mem s (PNode c) (queue s) (set_nth (next s) c prev) (dnext s) in
-          match prev with
-          | PNull =>
-              let s2 := s_ghost s1 (Some c) (gstack s1) (gqueue s1) (alog s1 ++ [c]) (glog s1 ++ [c]) in
-              (set_pc s2 c PPub0, 21, c)
-          | _ =>
-              let s2 := s_ghost s1 (owner s1) (c :: gstack s1) (gqueue s1) (alog s1 ++ [c]) (glog s1) in
-              match tk x with
-              | KPlain => (set_task s2 c (t_pc (t_flag x false) PPubW), 21, c)   (* fresh sync_awaiter: flag = false, awaiter.h:320 *)
-              | KCoro => (set_run (set_pc s2 c PParked) t (TSusp c), 21, c)
-              end
-          end
+      | PSub e =>
+          if ptr_eqb (requests s) e then
+            (* the CAS succeeds: the request (with aw->_next = e) is published *)
+            let s1 := s_ev (s_mem s (PNode c) (queue s) (next s) (dnext s)) 5 c in
+            match e with
+            | PNull =>
+                let s2 := s_ghost s1 (Some c) (gstack s1) (gqueue s1) (alog s1 ++ [c]) (glog s1 ++ [c]) in
+                (set_pc s2 c PPub0, 29, c)
+            | _ =>
+                let s2 := s_ghost s1 (owner s1) (c :: gstack s1) (gqueue s1) (alog s1 ++ [c]) (glog s1) in
+                match tk x with
+                | KPlain => (set_task s2 c (t_pc (t_flag x false) PPubW), 29, c)   (* sync_awaiter::flag = false, awaiter.h:320 *)
+                | KCoro => (set_run (set_pc s2 c PParked) t (TSusp c), 29, c)
+                end
+            end
+          else
+            (* the CAS fails: prev = the observed value; aw->_next = prev; next attempt pending *)
+            (set_pc (s_mem s (requests s) (queue s) (set_nth (next s) c (requests s)) (dnext s)) c (PSub (requests s)), 29, c)
       | PPub0 => (set_pc s c PBqS, 22, c)
       | PPubW => (set_pc s c PFlag, 22, c)
-      | PBqS => (enter (set_pc (build_queue s (PNode c)) c PCs) c, 24, c)
+      | PBqS => (enter (set_pc (build_queue s (PNode c)) c PCs) c, 28, c)
       | PFlag => (enter (set_task s c (t_pc (t_flag x false) PCs)) c, 8, c)
-      | PCs => (set_task s c (t_leave x), 25, c)
+      | PCs => (set_task (s_ev s 4%nat c) c (t_leave x), 25, c)
       | PUnlock =>
-          match queue s with
-          | PNull =>
-              match requests s with
-              | PDoor =>
-                  let s1 := s_mem s PNull (queue s) (next s) (dnext s) in
-                  let s2 := s_ghost s1 None (gstack s1) (gqueue s1) (alog s1) (glog s1) in
-                  (set_task s2 c (t_endround x false), 23, c)
-              | _ => (set_pc s c PBqU, 23, c)
+          match requests s with
+          | PNull => (s_err s, 27, c)              (* assert(_requests != nullptr) fails *)
+          | _ =>
+              match queue s with
+              | PNull => (set_pc s c PUnlockCas, 27, c)
+              | _ => (handover s t c, 27, c)
               end
-          | _ => (handover s t c, 23, c)
           end
-      | PBqU => (handover (build_queue s PDoor) t c, 24, c)
+      | PUnlockCas =>
+          match requests s with
+          | PDoor =>
+              let s1 := s_mem s PNull (queue s) (next s) (dnext s) in
+              let s2 := s_ghost s1 None (gstack s1) (gqueue s1) (alog s1) (glog s1) in
+              (set_task s2 c (t_endround x false), 29, c)
+          | _ => (set_pc s c PBqU, 29, c)
+          end
+      | PBqU => (handover (build_queue s PDoor) t c, 28, c)
       | PParked | PDone => (s, 0, c)
       end
   end.
@@ -264,7 +282,7 @@ Fixpoint enabled_list (s : st) (n : nat) (from : nat) : list nat :=
 Definition all_enabled (s : st) : list nat := enabled_list s (length (thrs s)) 0.
 
 (* run a schedule: choice k picks the (k mod |enabled|)-th enabled thread; an exhausted schedule continues with 0.
-   trace entry: thread, point, task, critical-section entries that happened during the step *)
+   trace entry: thread, point, task, followed by the scenario events (kind, task) of the step *)
 Fixpoint run_sched (fuel : nat) (s : st) (sched : list Z) (tr : list (list Z)) : st * list (list Z) :=
   match fuel with
   | O => (s, tr)
@@ -277,7 +295,7 @@ Fixpoint run_sched (fuel : nat) (s : st) (sched : list Z) (tr : list (list Z)) :
           let '(s1, p, c) := tstep s i in
           let ent := skipn (length (elog s)) (elog s1) in
           run_sched f s1 (tl sched)
-                    (tr ++ [[Z.of_nat i; p; Z.of_nat c]] ++ map (fun w => [6; Z.of_nat w]) ent)
+                    (tr ++ [[Z.of_nat i; p; Z.of_nat c]] ++ map (fun e => [Z.of_nat (fst e); Z.of_nat (snd e)]) ent)
       end
   end.
 
@@ -339,58 +357,42 @@ Definition mutex_run (ops : list (list Z)) : list (list Z) :=
      ++ [[8; b2z (ovl s); is_null (requests s); is_null (queue s)]].
 
 (* ---------- decidable form of C07 + C08 on an observed event stream ----------
-   The oracle does not replay the model.  It reads the events of the implementation:
-     [tid; point; task]  the step of an OS thread at a yield point on behalf of a task
-     [6; task]           a critical-section entry
+   The oracle does not replay the model and does not look at point codes.  It reads the events of the implementation:
+     [5; task]   a request of the task was published (a successful compare_exchange stored an awaiter into _requests)
+     [6; task]   the task entered the critical section        [4; task]   the task left the critical section
      [task; 7; rounds; entries; failed_try; done]   per contender, [8; overlap; requests_null; queue_null]
    and checks: no overlap, no deadlock/crash line, every contender finished all its rounds with
-   entries + failed try_locks = rounds and no failed try for a lock round, a request that went through
-   the publishing CAS (point 21) enters the critical section in publish order (FIFO) and exactly once,
-   a successful try (entry directly after point 20) happens only when no published request is outstanding,
-   at most one task is between entry and its unlock step, nothing outstanding at the end and the mutex is
-   free again. *)
+   entries + failed try_locks = rounds (failed only for try rounds); a task with an outstanding published request
+   enters only as the oldest outstanding one (FIFO, exactly once per publish); a task without one enters only when
+   nothing is outstanding (the mutex was free: no barging); entries and exits alternate (one task inside);
+   nothing outstanding at the end and the mutex is free again. *)
 Record ost := mkO {
-  o_last : list (nat * Z);     (* last library/scenario point seen per task *)
   o_out : list nat;            (* published requests not yet entered, oldest first *)
-  o_in : option nat;           (* task between its entry and its "m_unlock" step *)
+  o_in : option nat;           (* task inside the critical section *)
   o_ok : bool
 }.
 
-Fixpoint lookup (l : list (nat * Z)) (c : nat) : Z :=
-  match l with [] => 0 | (k, v) :: r => if Nat.eqb k c then v else lookup r c end.
-Definition update (l : list (nat * Z)) (c : nat) (v : Z) : list (nat * Z) :=
-  (c, v) :: filter (fun p => negb (Nat.eqb (fst p) c)) l.
-
 Definition ostep (o : ost) (l : list Z) : ost :=
   match l with
+  | [5; c] =>
+      let c' := Z.to_nat c in
+      mkO (o_out o ++ [c']) (o_in o) (o_ok o && negb (existsb (Nat.eqb c') (o_out o)))
   | [6; w] =>
       let w' := Z.to_nat w in
-      let lp := lookup (o_last o) w' in
       let free := match o_in o with None => true | Some _ => false end in
-      if Z.eqb lp 20 then
-        (* acquired by the CAS null -> doorman: nothing may be waiting *)
-        mkO (o_last o) (o_out o) (Some w') (o_ok o && free && match o_out o with [] => true | _ => false end)
-      else
-        (* acquired through a published request: must be the oldest outstanding one *)
+      if existsb (Nat.eqb w') (o_out o) then
         match o_out o with
-        | h :: r => mkO (o_last o) r (Some w') (o_ok o && free && Nat.eqb h w' &&
-                                               (Z.eqb lp 24 || Z.eqb lp 21 || Z.eqb lp 8))
-        | [] => mkO (o_last o) [] (Some w') false
+        | h :: r => mkO r (Some w') (o_ok o && free && Nat.eqb h w')
+        | [] => mkO [] (Some w') false
         end
-  | [_; p; c] =>
-      let c' := Z.to_nat c in
-      (* the tail of await_suspend ("m_pub") may run after its coroutine was resumed elsewhere: not a point of the task *)
-      let o1 := mkO (if Z.eqb p 22 then o_last o else update (o_last o) c' p) (o_out o) (o_in o) (o_ok o) in
-      if Z.eqb p 21 then mkO (o_last o1) (o_out o ++ [c']) (o_in o) (o_ok o && negb (existsb (Nat.eqb c') (o_out o)))
-      else if Z.eqb p 23 then
-        mkO (o_last o1) (o_out o) None
-            (o_ok o && match o_in o with Some h => Nat.eqb h c' | None => false end)
-      else o1
+      else mkO (o_out o) (Some w') (o_ok o && free && match o_out o with [] => true | _ => false end)
+  | [4; w] =>
+      mkO (o_out o) None (o_ok o && match o_in o with Some h => Nat.eqb h (Z.to_nat w) | None => false end)
   | _ => o
   end.
 
 Definition is_event (l : list Z) : bool :=
-  match l with [6; _] => true | [t; _; _] => negb (Z.eqb t 777) | _ => false end.
+  match l with [k; _] => Z.eqb k 4 || Z.eqb k 5 || Z.eqb k 6 | _ => false end.
 
 Fixpoint count_acq (p : list (acq * rel)) (a : acq) : nat :=
   match p with
@@ -422,7 +424,7 @@ Fixpoint tasks_ok (l : list task) (i : nat) (obs : list (list Z)) : bool :=
 
 Definition mutex_oracle (ops obs : list (list Z)) : bool :=
   let decl := tasks (init ops) in
-  let o := fold_left ostep (filter is_event obs) (mkO [] [] None true) in
+  let o := fold_left ostep (filter is_event obs) (mkO [] None true) in
   o_ok o
   && match o_out o with [] => true | _ => false end
   && match o_in o with None => true | Some _ => false end
